@@ -123,20 +123,76 @@ Definition enc_jgraph (g : jgraph) : sexp :=
      jset (map (fun p => L (enc_nv (fst p) ++ [A (snd p)])) (jg_lock_sets g));
      jset (map (fun p => L [A (fst p); A (snd p)]) (jg_remote_sets g))].
 
-Definition run_jsr (s : sexp) : sexp :=
+(* ---------- C01 judgement: nothing unreachable is present ---------- *)
+Fixpoint reach (fuel : nat) (edges : spec -> list spec) (work seen : list spec) : list spec :=
+  match fuel with
+  | O => seen
+  | S f =>
+      match work with
+      | [] => seen
+      | s :: w => if mem s seen then reach f edges w seen else reach f edges (edges s ++ w) (s :: seen)
+      end
+  end.
+
+(* the embedded module info of a package file, when its manifest has one *)
+Definition modinfo_deps (W : jworld) (s : spec) : list jdep :=
+  match cls_of W s with
+  | CFile p v path =>
+      match v_meta (ver_of W (p, v)) with
+      | VOk vi => match lookup path (vi_modinfo vi) with Some mi => mi | None => [] end
+      | _ => []
+      end
+  | _ => []
+  end.
+
+(* edges of the final graph; [relaxed]: an error entry of a package file still counts the dependencies
+   its embedded module info declared (they were followed before its content load failed) *)
+Definition graph_edges (W : jworld) (g : jgraph) (relaxed : bool) (s : spec) : list spec :=
+  (match lookup s (jg_redirects g) with Some t => [t] | None => [] end) ++
+  match lookup s (jg_slots g) with
+  | Some (JsMod _ deps) => map jd_target deps
+  | Some (JsErr _) => if relaxed then map jd_target (modinfo_deps W s) else []
+  | _ => []
+  end.
+
+Definition reach_fuel (W : jworld) (g : jgraph) (roots : list spec) : nat :=
+  (16 + length roots + 4 * (length (jg_slots g) + length (jg_redirects g)) +
+   fold_left (fun n p => n + match snd p with JsMod _ deps => length deps | _ => 0 end +
+                         length (modinfo_deps W (fst p))) (jg_slots g) 0)%nat.
+
+Definition orphan_free (W : jworld) (g : jgraph) (roots : list spec) (relaxed : bool) : bool :=
+  let r := reach (reach_fuel W g roots) (graph_edges W g relaxed) roots [] in
+  forallb (fun p => mem (fst p) r) (jg_slots g).
+
+(* answers report the requested specifier as the final one (no aliases): with aliases an answer can
+   replace the entry of another module and with it the only importer of something *)
+Definition noalias_resp (p : spec * jresp) : bool :=
+  match snd p with JExternal f => N.eqb f (fst p) | JModule f _ => N.eqb f (fst p) | _ => true end.
+Definition noalias_jworld (W : jworld) : bool := forallb noalias_resp (jw_use W) && forallb noalias_resp (jw_only W).
+
+Definition CLASSTAG : N := 555555.
+Definition c01_judgement (W : jworld) (g : jgraph) (roots : list spec) : list sexp :=
+  if negb (noalias_jworld W) then [judge true]
+  else if orphan_free W g roots false then [judge true]
+  else if orphan_free W g roots true then [judge false; L [A CLASSTAG; A 101]]
+  else [judge false].
+
+Definition run_jsr_gen (with_c01_judge : bool) (s : sexp) : sexp :=
   match s with
   | L [A _; w; L [pc]; roots] =>
       match dec_jworld w, as_bool pc, as_atoms roots with
       | Some W, Some p, Some rs =>
           if negb (wf_jworld W) then L [A 434343] else
           match jbuild W {| jo_prefer_cached := p |} rs with
-          | Some g => L [enc_jgraph g]
+          | Some g => L (enc_jgraph g :: (if with_c01_judge then c01_judgement W g rs else []))
           | None => L [A 424242]
           end
       | _, _, _ => decode_error
       end
   | _ => decode_error
   end.
+
+Definition run_jsr : sexp -> sexp := run_jsr_gen false.
 
 Definition is_jsr_case (s : sexp) : bool :=
   match s with L (A t :: _) => N.eqb t JSRTAG | _ => false end.
@@ -148,3 +204,6 @@ Definition is_rel_case (s : sexp) : bool :=
 
 Definition with_jsr (f : sexp -> sexp) (s : sexp) : sexp :=
   if is_jsr_case s then run_jsr s else if is_rel_case s then L [] else f s.
+(* the C01 stream also judges "nothing unreachable is present" on registry graphs *)
+Definition with_jsr_c01 (f : sexp -> sexp) (s : sexp) : sexp :=
+  if is_jsr_case s then run_jsr_gen true s else if is_rel_case s then L [] else f s.
